@@ -60,14 +60,6 @@ Theorem c34_get_no_sql_when_present_and_unexpired : forall e k st h,
 Proof. exact get_present_unexpired. Qed.
 Print Assumptions c34_get_no_sql_when_present_and_unexpired.
 
-(* refuted: "get returns the mapped object" - the object looked up before the autoflush is returned although
-   the flush has deleted it and mapped another object under the identity *)
-Theorem c34_get_returns_mapped_object_refuted : exists e k st,
-  let r := step e (Get (fst k) (snd k)) st in
-  rerr r = 0 /\ robjs r = [1%nat] /\ holder k (rst r) = Some 0%nat /\ persistent (get (rst r) 1) = false.
-Proof. exists (env_of [1] true false), (1, 0), (run h_get_stale (init true [1; 1])). exact get_stale. Qed.
-Print Assumptions c34_get_returns_mapped_object_refuted.
-
 (* refuted outside the guard: "what the map holds is attached to the session" (key_consistent, left to right) *)
 Theorem c34_mapped_is_attached_refuted : exists eoc pks h,
   mapped_attached (run h (init eoc pks)) = false /\ bad (run h (init eoc pks)) = true.
@@ -93,6 +85,12 @@ Theorem c34_double_row_switch_refuted :
 Proof. exact double_row_switch. Qed.
 Print Assumptions c34_double_row_switch_refuted.
 
+(* formerly refuted, repaired in /repo 69ec57b: when the autoflush inside get() deletes the looked-up instance and
+   maps a pending object with the same primary key, get() returns that mapped object (number 0), not the deleted one *)
+Example c34_ex_get_returns_mapped_after_row_switch :
+  let r := step (env_of [1] true false) (Get 1 0) (run h_get_stale (init true [1; 1])) in
+  rerr r = 0 /\ robjs r = [0%nat] /\ holder (1, 0) (rst r) = Some 0%nat /\ persistent (get (rst r) 1) = false.
+Proof. exact get_after_row_switch. Qed.
 (* the consistency predicates are satisfiable on a history through loads and mutations *)
 Example c34_ex_consistent : let st := run h_good (init true [5]) in
   mapped_attached st = true /\ persistent_mapped st = true /\ one_persistent_per_key st = true /\
